@@ -243,3 +243,130 @@ def gen_seq_program(seed, prof, tier="quick", mp=None, length=None):
             ops.append({"op": "reopen", "cfg": cfgspace.gen_reopen_cfg(rng, cfg)})
     return {"seed": seed, "engine": "seq", "prof": prof, "cfg": cfg, "knobs": knobs, "pids": pids,
             "formats": formats, "contents": contents, "mcontents": mcontents, "ops": ops}
+
+
+# ------------------------------------------------------------------------------------------
+# CONC scenarios
+# ------------------------------------------------------------------------------------------
+
+POLICIES = ["random", "random", "pct", "pct", "bounded", "probe"]
+
+
+def gen_conc_knobs(rng, mp=None, tier="quick"):
+    k = {"blksize": rng.choice([None, None, 3, 64]), "write_through": rng.random() < 0.2,
+         "shuffle_listdir": True, "mp": (rng.random() < 0.2) if mp is None else mp,
+         "policy": rng.choice(POLICIES), "wake": "fifo" if rng.random() < 0.6 else "random",
+         "spurious": 0.0 if rng.random() < 0.8 else 0.2,
+         "est_len": rng.choice([40, 80, 150, 300, 600]), "pct_depth": rng.choice([1, 2, 2, 3]),
+         "bound": rng.choice([1, 2, 3])}
+    if k["mp"]:
+        k["wake"] = "random"
+    return k
+
+
+def _obj_setup(rng, npids, ncont):
+    """Start states of C07 (as set-up histories)."""
+    choice = rng.randrange(8)
+    if choice == 0:
+        return []
+    if choice == 1:
+        return [{"op": "store", "pid": 0, "c": 0, "kind": "str"}]
+    if choice == 2:
+        return [{"op": "store", "pid": 0, "c": 0, "kind": "str"}, {"op": "store", "pid": 1, "c": 0, "kind": "str"}]
+    if choice == 3:
+        return [{"op": "store", "pid": None, "c": 0, "kind": "str"}]
+    if choice == 4:
+        return [{"op": "tag", "pid": 0, "cid": ["x", 0]}]
+    if choice == 5:
+        return [{"op": "store", "pid": 0, "c": 0, "kind": "str"}, {"op": "store", "pid": 1, "c": 1, "kind": "str"}]
+    if choice == 6:
+        return [{"op": "tag", "pid": 0, "cid": ["c", 0]}]
+    # random short history
+    out = []
+    for _ in range(rng.randint(1, 4)):
+        r = rng.random()
+        if r < 0.5:
+            out.append({"op": "store", "pid": rng.randrange(npids), "c": rng.randrange(ncont), "kind": "str"})
+        elif r < 0.7:
+            out.append({"op": "tag", "pid": rng.randrange(npids), "cid": ["c", rng.randrange(ncont)]})
+        elif r < 0.85:
+            out.append({"op": "delete", "pid": rng.randrange(npids)})
+        else:
+            out.append({"op": "store", "pid": None, "c": rng.randrange(ncont), "kind": "str"})
+    return out
+
+
+def _obj_task_op(rng, npids, ncont):
+    r = rng.random()
+    if r < 0.40:
+        op = {"op": "store", "pid": rng.randrange(npids), "c": rng.randrange(ncont), "kind": rng.choice(["str", "str", "path", "file"])}
+        if rng.random() < 0.15:
+            op["ckalgo"] = rng.choice(["sha256", "SHA-1", "sha3_256"])
+            op["ck"] = rng.choice(["ok", "wrong"])
+        return op
+    if r < 0.47:
+        return {"op": "store", "pid": None, "c": rng.randrange(ncont), "kind": "str"}
+    if r < 0.65:
+        ref = ["c", rng.randrange(ncont)] if rng.random() < 0.85 else ["x", 0]
+        return {"op": "tag", "pid": rng.randrange(npids), "cid": ref}
+    if r < 0.92:
+        return {"op": "delete", "pid": rng.randrange(npids)}
+    return {"op": "div", "c": rng.randrange(ncont), "ckalgo": rng.choice(["sha256", "md5", "sha224"]),
+            "ck": rng.choice(["ok", "wrong", "wrong"]), "size": rng.choice(["ok", "wrong"])}
+
+
+def gen_conc_program(seed, family="obj", tier="quick", mp=None, ntasks=None):
+    rng = rng_for(seed)
+    cfg = gen_cfg(rng) if rng.random() < 0.5 else gen_cfg(rng, simple=True)
+    knobs = gen_conc_knobs(rng, mp=mp, tier=tier)
+    if ntasks is None:
+        r = rng.random()
+        ntasks = 2 if r < 0.7 else (3 if r < 0.95 or tier == "quick" else 4)
+    if family == "obj":
+        npids = rng.choice([2, 2, 3])
+        pids = rng.sample(["a", "ab", "b", "doi:10/x", "urn:1"], npids)
+        ncont = 2
+        contents = gen_contents(rng, knobs["blksize"] or 16, ncont)
+        contents = [[min(c[0], 200), c[1]] for c in contents]
+        if contents[0] == contents[1]:
+            contents[1] = [contents[1][0] + 1, contents[1][1]]
+        formats = [cfg["store_metadata_namespace"]]
+        setup = _obj_setup(rng, npids, ncont)
+        tasks = []
+        for _ in range(ntasks):
+            tasks.append([_obj_task_op(rng, npids, ncont) for _ in range(1 if rng.random() < 0.7 else 2)])
+        mcontents = [[5, 1], [9, 2]]
+    else:  # metadata family (C12)
+        pids = ["a", "ab"][: rng.choice([1, 1, 2])]
+        npids = len(pids)
+        formats = [cfg["store_metadata_namespace"], "fmt2"][: rng.choice([1, 2, 2])]
+        contents = [[7, 3], [12, 5]]
+        mcontents = [[rng.choice([0, 5, 40]), 1], [rng.choice([3, 9, 70]), 2], [4000 + rng.randrange(5000), 3]]
+        setup = []
+        if rng.random() < 0.6:
+            setup.append({"op": "smeta", "pid": 0, "fmt": rng.choice([None, 0]), "m": 0})
+        if len(formats) > 1 and rng.random() < 0.5:
+            setup.append({"op": "smeta", "pid": 0, "fmt": 1, "m": 1})
+        if rng.random() < 0.4:
+            setup.append({"op": "store", "pid": 0, "c": 0, "kind": "str"})
+        if npids > 1 and rng.random() < 0.5:
+            setup.append({"op": "smeta", "pid": 1, "fmt": None, "m": 1})
+
+        def mop():
+            r = rng.random()
+            f = rng.choice([None] + list(range(len(formats))))
+            p = 0 if rng.random() < 0.85 else rng.randrange(npids)
+            if r < 0.35:
+                return {"op": "smeta", "pid": p, "fmt": f, "m": rng.randrange(3)}
+            if r < 0.55:
+                return {"op": "rmeta", "pid": p, "fmt": f}
+            if r < 0.72:
+                return {"op": "dmeta", "pid": p, "fmt": rng.choice(list(range(len(formats))))}
+            if r < 0.88:
+                return {"op": "dmeta", "pid": p, "fmt": None}
+            return {"op": "delete", "pid": p}
+        tasks = [[mop() for _ in range(1 if rng.random() < 0.6 else 2)] for _ in range(ntasks)]
+    stagger = [0] + [rng.choice([0, 0, 5, 20, 60]) for _ in range(ntasks - 1)]
+    return {"seed": seed, "engine": "conc", "family": family, "cfg": cfg, "knobs": knobs, "pids": pids,
+            "formats": formats, "contents": contents, "mcontents": mcontents, "setup": setup,
+            "tasks": tasks, "stagger": stagger}
